@@ -214,7 +214,8 @@ def make_case(prop, rng, gen_opts=None):
     # next to '0 2r' only for the unedited round trip: an EDIT inside such lists runs into the re-compressor (C08)
     opts = dict(lattice_arrays=True, multiply_surfaces=(prop == "C01"), joint_imp_cards=True,
                 edge_volumes=(prop == "C01"), tr_tiny=(prop == "C01"), tr_forms=True,
-                tr_flag=True, mass_fraction_materials=True)
+                tr_flag=True, mass_fraction_materials=True,
+                vol_interpolate=(prop in ("C03", "C07")))
     opts.update(gen_opts or {})
     wild = rng.random() < WILD[prop]
     return rt.gen_case(rng, wild=wild, opts=opts, decorate_p=DECOR[prop])
